@@ -1,10 +1,10 @@
 SPECIFICATION Spec
 CONSTANTS
   Machine = "log"
-  CrashPoints = TRUE
+  CrashPoints = FALSE
   RollFaults = FALSE
   RollKills = FALSE
-  LogListFaults = FALSE
+  LogListFaults = TRUE
   ListingDesign = "skip"
   RoomFaults = FALSE
   RollDesign = "rename"
@@ -26,6 +26,6 @@ CONSTANTS
   PreDumps = 5
   MaxIds = 12
 CONSTRAINT Bounded
-INVARIANTS TypeOK LogCountBoundCrash LogSizeBound LogSizeStrict
-PROPERTIES LogCrashRecovers
+INVARIANTS TypeOK LogCountBound LogCountRecovered LogCountBoundCrash LogSizeBound LogSizeStrict
+PROPERTIES LogNoGrowthWithoutRoll LogNoGrowthWhileRollFails
 CHECK_DEADLOCK FALSE
